@@ -325,6 +325,7 @@ func (e *Engine) VerifyFunction(fn *ssa.Function, ct *Contract) (c *FnCtx) {
 	fr := newFrame(c, fn)
 	fr.contract = ct
 	c.top = fr
+	c.checkClauseSites(fn, ct)
 	st := &State{pc: True, cells: map[*ssa.Alloc]*Val{}, heap: map[string]*Term{}, ac: Var("ac0", SInt)}
 	c.addFact(nil, Lt(Num(0), st.ac))
 	var args []*Val
@@ -610,4 +611,48 @@ func (e *Engine) sourceLine(pos token.Pos) string {
 		return strings.TrimSpace(lines[p.Line-1])
 	}
 	return ""
+}
+
+// checkClauseSites: every `call f#n:` clause of a contract must name a call (or select) site that
+// exists in the function or in one of its function literals. A clause whose site has disappeared
+// (the call was removed or its ordinal changed) would otherwise be silently dropped and the
+// property it states would no longer be checked: reported as "contract out of date".
+func (c *FnCtx) checkClauseSites(fn *ssa.Function, ct *Contract) {
+	if ct == nil || len(ct.Asserts) == 0 {
+		return
+	}
+	sites := map[string]bool{}
+	var visit func(f *ssa.Function)
+	visit = func(f *ssa.Function) {
+		tmp := &FnCtx{ordinals: map[ssa.Instruction]int{}, callOrd: map[ssa.Instruction]string{}}
+		tmp.computeOrdinals(f)
+		for _, k := range tmp.callOrd {
+			sites[k] = true
+		}
+		for _, a := range f.AnonFuncs {
+			visit(a)
+		}
+	}
+	visit(fn)
+	var missing []string
+	for k, cl := range ct.Asserts {
+		if sites[k] {
+			continue
+		}
+		// `call f#n: assert false` is a guard against a site APPEARING (a second dynamic call, say):
+		// its site is meant not to exist
+		guard := true
+		for _, a := range cl {
+			if !(a.Kind == "assert" && strings.TrimSpace(a.Text) == "false") {
+				guard = false
+			}
+		}
+		if !guard {
+			missing = append(missing, k)
+		}
+	}
+	sort.Strings(missing)
+	for _, k := range missing {
+		c.errorf("%s: the contract has clauses at call site %s, which does not exist in the function any more (contract out of date)", fn.Name(), k)
+	}
 }
